@@ -837,3 +837,57 @@ def c17(run):
     run.add_traces(summ["evaluations"], r, "lifecycle, read-handler and cut events of real YAML runs")
     run.assumptions += ["protocol level only: what crosses the binding (pairing, order, bounds of copies and cuts); accesses inside unsafe-libyaml are outside the specification",
                         "libyaml's marks lie within the bytes it has been given (checked on every recorded cut)"]
+
+
+# ----------------------------------------------------------------------------- XtData (C01, C06)
+
+def data_stage(run, cmd, count, what):
+    mc = run_tlc("MC_XtData.tla", "MC_XtData.cfg", workers=4)
+    run.add_mc(mc, "XtData: TomlReorder idempotent, a stable two-group permutation; identity for the other targets; the recorded three-group deviation agrees at the root")
+    raw = os.path.join(WORK, "trace_%s_%s.raw" % (run.pid, run.tier))
+    path = os.path.join(WORK, "trace_%s_%s.ndjson" % (run.pid, run.tier))
+    summ = run_xtv([cmd, raw, count], timeout=3000)
+    run.add_harness(summ, "recorded: " + what)
+    common.sh(["python3", os.path.join(common.VERIF, "tools", "lib", "enrich.py"), raw, path], check=True, timeout=3000)
+    listed = sorted(k["key"] for k in common.known_findings() if k["property"] == run.pid)
+    env = {"XT_DEVS": ",".join(listed) or "none"}
+    cur = path
+    n = 0
+    while True:
+        r = common.validate_trace("Trace_XtData.tla", "Trace_XtData.cfg", cur, env=env, tag="XtData-%s" % run.pid)
+        for l in r["out"].split("\n"):
+            if l.startswith('<<"DEVIATION"'):
+                d = l.split('"')[3]
+                hit = next((k for k in common.known_findings() if k["property"] == run.pid and k["key"] == d), None)
+                if hit and hit not in run.known_hits:
+                    run.known_hits.append(hit)
+        if r["accepted"] or n >= 6:
+            break
+        n += 1
+        info = json.loads(common.tlc_printed(r["out"], "REJECTJSON")[0])
+        rec = info["rec"]
+        brief = {k: rec.get(k) for k in ("ev", "vid", "from", "to", "mode", "path", "res", "msg", "model", "class", "spelling", "input_hex") if k in rec}
+        run.violation("translation is not what XtData expects (%s -> %s, %s): %s" % (rec.get("from", rec.get("path")), rec.get("to"), rec.get("mode", ""), json.dumps(brief)[:500]),
+                      {"kind": "xtdata-trace", "record": rec})
+        lines = read_lines(cur)
+        nxt = path + ".cut%d" % n
+        write_lines(nxt, lines[:info["line"] - 1] + lines[info["line"]:])
+        cur = nxt
+    run.add_traces(summ["evaluations"], r, what)
+    run.assumptions += ["outputs are read back by readers that share nothing with xt's writers: the harness's own JSON and MessagePack decoders, CPython's tomllib, PyYAML's composer with YAML 1.2 core-schema resolution done by tools/lib/decode.py",
+                        "source spellings stay inside what means the same in YAML 1.1 and 1.2 (DESIGN.md section 8)"]
+
+
+def c01(run):
+    run.rule = ("each case = one translation of a generated document of the data model common to the pair (nesting to depth 60, boundary integers, random and boundary "
+                "binary64 values, strings with controls, quotes, BOM, non-characters, astral code points and look-alikes) in one of 3 spellings of the source format, for "
+                "all 16 pairs, slice and reader, explicit and detected; the output is decoded by an independent reader and TLC checks outTree = Expected(inTree) and one "
+                "output digest per (value, pair); distinct by value and spelling")
+    data_stage(run, "record-data", _q(run, 40, 1500), "one-hop translations with independent read-back, all pairs")
+
+
+def c06(run):
+    run.rule = ("each case = one hop of a path of up to 3 translations starting from a generated document (common model of all four formats, of the three streaming formats, or "
+                "with the start format's extensions: non-finite floats, binary, 32-bit floats, non-string keys); TLC requires B -> B on xt's own output to reproduce it byte "
+                "for byte and, inside the common model, every arrival of the value in format B to agree (bytes; through TOML: trees up to TomlReorder)")
+    data_stage(run, "record-hops", _q(run, 120, 4000), "paths of up to 3 hops over the 4 formats, slice and reader at each hop")
